@@ -52,6 +52,10 @@ CLAIMS = {
     text="LiquidFiltersArr specifies sort / sort_natural as an explicit stable insertion sort with the nil-last comparator and, as property layer, permutation + sortedness + stability + idempotence + nil-last, and uniq / compact / concat / map / where / first / last / size / slice / join / reverse by contract; TLC checks the property layer against the implementation-shaped layer on every enumerated array and emits every case for replay on the real filters (structural comparison through a dump filter); random arrays of up to 60 elements in adversarial initial orders and type mixes are evaluated by the real filters and the recorded (input, output) events are validated against the specification's relation with TLC (Trace_Eval).",
     note="bounded: arrays <= 4 (quick) / 5 (thorough) exhaustively, objects arrays <= 3 / 4; 400 / 4000 random arrays up to length 60; for incomparable elements only a permutation is demanded.",
     tech=TECH_AB, ref="DESIGN.md 7 C14"),
+ "C15": dict(
+    text="LiquidBig gives exact integers beyond 32 bits in TLA+ (cross-checked against Python at setup); LiquidFiltersMath states, for every (filter, a, b), the RELATION an outcome must satisfy: exact integer result when it fits 64 bits, otherwise error or a double near the float-path result, never anything else; quotient/remainder identity with |r| < |b|, zero divisor an error; float operands within half an ulp of the exact rational; ceil/floor/round the neighbouring integer with ties away from zero. TLC checks that no allowed outcome is the two's-complement wrap, that checked arithmetic is allowed and that division and remainder fit together, over the whole pool; the real filters are then run on every enumerated case, their outcomes recorded exactly (decimal text, doubles from their bits) and validated against the relation with TLC (Trace_Math).",
+    note="bounded: the property's operand pool x 3 representations x 7 binary + 4 unary filters, k/8 pairs for |k| <= 12 (quick) / 40 (thorough); the harness build has overflow checks on, so wrapping arithmetic panics and is recorded as an unexplained outcome.",
+    tech=TECH_AB, ref="DESIGN.md 7 C15"),
  "C16": dict(
     text="LiquidFiltersHtml defines escape, escape_once (look-ahead for the five entities), strip_html (four leftmost-shortest removal passes), url_encode (UTF-8 bytes outside [A-Za-z0-9._-] percent-escaped) and url_decode (+ as space, percent-decoding, strict UTF-8 validation) in TLA+; TLC enumerates the bounded input space and checks output safety, unescape-of-escape identity, escape_once idempotence and entity preservation, the url_encode charset, decode-of-encode identity and no-complete-tag-remains on every input; every case is replayed on the real filters and compared.",
     note="bounded: strings <= 4/5 (escape), <= 4 (url), <= 4/6 (strip_html) over the alphabets the property names, plus token-level sequences that reach the script/style/comment passes and near-entities.",
